@@ -89,7 +89,15 @@ def generate(rng, tier, i):
     if i % 4 == 3:
         return gen_loss_case(rng, tier, i // 4)
     j = (i // 4) * 3 + i % 4
-    case = G.gen_string_case(rng, tier, j, classes=ER_CLASSES)
+    if i % 1600 == 798:
+        # a batch whose (R + 1) x (R + 1) x N working set runs to millions of entries, N not a round number
+        R = rng.choice([31, 63, 63, 127, 255])
+        cells = rng.choice([2 ** 20, 2 ** 21, 2 ** 22, 2 ** 22, 2 ** 23])
+        N = max(3, int(cells * rng.uniform(1.0, 2.6)) // (R + 1) ** 2 + rng.randint(1, 13))
+        case = G.gen_string_case(rng, tier, j, classes=ER_CLASSES, dims=(N, R, rng.randint(3, 9)))
+        case["huge"] = True
+    else:
+        case = G.gen_string_case(rng, tier, j, classes=ER_CLASSES)
     case["kind"] = "er"
     a, b = rng.choice([0.25, 0.5, 1.0, 1.5]), rng.choice([0.25, 0.5, 1.0, 1.5])
     extra = rng.choice([0.25, 0.5, 1.0])
@@ -270,6 +278,8 @@ def _exec_er(case, mon):
         mon.ambiguous("non-dyadic-costs")
     equal = ins == dl == sub
     norm = case["norm"]
+    if case.get("huge"):
+        mon.cls("huge_batch")
     er = _call(mon, case, "error_rate", ref_t, hyp_t)
     pe = _call(mon, case, "prefix_error_rates", ref_t, hyp_t)
     if case["class"] == "zero_dim_eos":
